@@ -16,6 +16,12 @@ N_ITERS = 14
 EQ0 = {"theta": 0.8, "phi": 0.3, "kappa": -0.6}
 
 
+def _tdom(case):
+    """time interval of a refinement case: starting at 0, after 0 and before 0 in turn"""
+    t0 = [0.0, 0.5, -0.75][case["seed"] % 3]
+    return t0, t0 + 1.5
+
+
 def gen_rar_cases(tier, seed, n_direct, n_e2e):
     rng = np.random.default_rng(seed + 1616)
     kinds = ["ode", "statio2", "nonstatio1", "nonstatio2"]
@@ -35,8 +41,14 @@ def gen_rar_cases(tier, seed, n_direct, n_e2e):
             else:
                 lo, hi = (min(n0, nt0), max(n0, nt0)) if n0 != nt0 else ((3, 10) if n0 != 5 else (5, 10))
                 n0, nt0 = (lo, hi) if rel == 1 else (hi, lo)
+        if kind.startswith("nonstatio") and (k // 4) % 5 == 3:
+            # refinement restricted to one axis: nothing is selected on the other one
+            if (k // 20) % 2:
+                sel_t = 0
+            else:
+                sel_x = 0
         steps_cap = int(rng.integers(0, 4)) if rng.integers(3) else 50  # capacity reached after 0..3 steps, or never
-        slack_t, slack_x = int(rng.integers(0, sel_t)), int(rng.integers(0, sel_x))
+        slack_t, slack_x = int(rng.integers(0, max(sel_t, 1))), int(rng.integers(0, max(sel_x, 1)))
         c = dict(kind=kind, start=start, every=every, sel_t=sel_t, sel_x=sel_x, n_start=n0, nt_start=nt0,
                  n=n0 + steps_cap * sel_x + slack_x, nt=nt0 + (steps_cap if rng.integers(2) else steps_cap + 1) * sel_t + slack_t,
                  cand_t=sel_t + int(rng.integers(0, 4)), cand_x=sel_x + int(rng.integers(0, 5)),
@@ -92,7 +104,7 @@ def build(case, rng):
     mins, maxs = [-1.0, 0.5][:max(d, 1)], [1.0, 2.5][:max(d, 1)]
     if pk == "ode":
         rar.update(sample_size_times=case["cand_t"], selected_sample_size_times=case["sel_t"])
-        gd.update(kind="ode", nt=case["nt"], bt=2, tmin=0.0, tmax=1.5, nt_start=case["nt_start"])
+        gd.update(kind="ode", nt=case["nt"], bt=2, tmin=_tdom(case)[0], tmax=_tdom(case)[1], nt_start=case["nt_start"])
         loss = jinns.loss.LossODE(u=net.pinn(), dynamic_loss=dyn, initial_condition=(0.0, jnp.asarray([0.3])), params=params)
     elif pk == "statio":
         rar.update(sample_size_omega=case["cand_x"], selected_sample_size_omega=case["sel_x"])
@@ -102,11 +114,11 @@ def build(case, rng):
         rar.update(sample_size_times=case["cand_t"], selected_sample_size_times=case["sel_t"],
                    sample_size_omega=case["cand_x"], selected_sample_size_omega=case["sel_x"])
         gd.update(kind="nonstatio", n=case["n"], b=2, dim=d, min_pts=mins, max_pts=maxs, nb=None, bb=None,
-                  nt=case["nt"], bt=2, tmin=0.0, tmax=1.5, cartesian=True, n_start=case["n_start"], nt_start=case["nt_start"])
+                  nt=case["nt"], bt=2, tmin=_tdom(case)[0], tmax=_tdom(case)[1], cartesian=True, n_start=case["n_start"], nt_start=case["nt_start"])
         loss = jinns.loss.LossPDENonStatio(u=net.pinn(), dynamic_loss=dyn, params=params)
     data = gens.make_generator(gd)
     return dict(loss=loss, params=params, data=data, net=net, spec=spec, pk=pk, d=d, mins=mins, maxs=maxs, het=het,
-                tmin=0.0, tmax=1.5)
+                tmin=_tdom(case)[0], tmax=_tdom(case)[1])
 
 
 def _rar_generator(case, pk, d):
@@ -115,7 +127,7 @@ def _rar_generator(case, pk, d):
     mins, maxs = [-1.0, 0.5][:max(d, 1)], [1.0, 2.5][:max(d, 1)]
     if pk == "ode":
         rar.update(sample_size_times=case["cand_t"], selected_sample_size_times=case["sel_t"])
-        gd.update(kind="ode", nt=case["nt"], bt=2, tmin=0.0, tmax=1.5, nt_start=case["nt_start"])
+        gd.update(kind="ode", nt=case["nt"], bt=2, tmin=_tdom(case)[0], tmax=_tdom(case)[1], nt_start=case["nt_start"])
     elif pk == "statio":
         rar.update(sample_size_omega=case["cand_x"], selected_sample_size_omega=case["sel_x"])
         gd.update(kind="statio", n=case["n"], b=2, dim=d, min_pts=mins, max_pts=maxs, nb=None, bb=None, n_start=case["n_start"])
@@ -123,7 +135,7 @@ def _rar_generator(case, pk, d):
         rar.update(sample_size_times=case["cand_t"], selected_sample_size_times=case["sel_t"],
                    sample_size_omega=case["cand_x"], selected_sample_size_omega=case["sel_x"])
         gd.update(kind="nonstatio", n=case["n"], b=2, dim=d, min_pts=mins, max_pts=maxs, nb=None, bb=None,
-                  nt=case["nt"], bt=2, tmin=0.0, tmax=1.5, cartesian=True, n_start=case["n_start"], nt_start=case["nt_start"])
+                  nt=case["nt"], bt=2, tmin=_tdom(case)[0], tmax=_tdom(case)[1], cartesian=True, n_start=case["n_start"], nt_start=case["nt_start"])
     return gens.make_generator(gd), mins, maxs
 
 
@@ -139,7 +151,7 @@ def build_system(case, rng, pk, d, D):
     loss = sp.loss()
     data, mins, maxs = _rar_generator(case, pk, d)
     return dict(loss=loss, params=sp.params, data=data, net=None, spec=None, sys=sp, pk=pk, d=d, mins=mins, maxs=maxs,
-                tmin=0.0, tmax=1.5)
+                tmin=_tdom(case)[0], tmax=_tdom(case)[1])
 
 
 def state_of(data, pk):
